@@ -34,10 +34,19 @@ def floors(tier):
             "tab_b.pattern.QQQ": 500, "tab_b.with_container": 100000, "cr_nul_field_checks": 100000, "tab_b.continuation_line_twins": 5000, "tab_a.inline_continuation_twins": 20000, "tab_b.multiline_twins": 30000}
 
 
+def _norm_label(d):
+    """store_labels keeps a label as written: one that continues on the next line carries that line's leading blanks (inline content
+    after a line break, like a title or a description continued on the next line)"""
+    m = d.get("meta")
+    if isinstance(m, dict) and isinstance(m.get("label"), str) and "\n" in m["label"]:
+        d["meta"] = dict(m, label=re.sub(r"\n[ \t]+", "\n", m["label"]))
+
+
 def norm_allow(sd):
     out = []
     for x in sd:
         x = dict(x)
+        _norm_label(x)
         if x["type"] in ("code_block", "fence", "html_block"):
             x["content"] = re.sub(r"(?m)^[ \t]+", "", x["content"])
         if x["type"] == "inline":
@@ -45,6 +54,7 @@ def norm_allow(sd):
 
             def fix(ch):
                 for c in ch or []:
+                    _norm_label(c)
                     if c["type"] == "code_inline":
                         # blank runs of a span continued on the next line; the one-space padding rule then strips differently
                         c["content"] = re.sub(r"[ \t]+", " ", c["content"]).strip(" ")
